@@ -768,7 +768,8 @@ theorem cascade_exists : ∀ (n : Nat) (s : Rib), s.pend.length ≤ n → Map.No
       | hold => simp [hc] at hne
       | ok =>
         have hf : fire s (.ok e.1) = some ({ (install s e.2).1 with pend := (install s e.2).1.pend.erase e.1 },
-            { oks := [e.2], hooks := (install s e.2).2 }) := by
+            { oks := [e.2], hooks := (install s e.2).2,
+              resolved := if e.2.key.isTop then [(true, e.2.ni, e.2.key)] else [] }) := by
           simp [fire, hget, hc]
         obtain ⟨script, s', o, hr, hq'⟩ := ih { (install s e.2).1 with pend := (install s e.2).1.pend.erase e.1 }
           (by simp only [install_pend]; omega) (by simp only [install_pend]; exact Map.nodup_erase hn _)
